@@ -44,6 +44,7 @@ type Clause struct {
 	oldSet map[ast.Expr]bool
 	loopVars []string
 	usesGhost bool
+	Inv    bool // data-structure invariant: assumed (not proved) at call sites outside the callee's package
 	done   bool
 	err    error
 }
@@ -75,7 +76,7 @@ func isAssumedPure(name string) bool {
 	return false
 }
 
-var kwRe = regexp.MustCompile(`^(func|requires|ensures|loop|watch|lemma|trusted|noinline|inline|define|assume-pure|end)\b`)
+var kwRe = regexp.MustCompile(`^(func|invariant|requires|ensures|loop|watch|lemma|trusted|noinline|inline|define|assume-pure|end)\b`)
 
 type macro struct {
 	name   string
@@ -129,7 +130,7 @@ func findCall(s, name string) int {
 			return -1
 		}
 		i += from
-		if i == 0 || !isIdentChar(s[i-1]) && s[i-1] != '.' {
+		if (i == 0 || !isIdentChar(s[i-1]) && s[i-1] != '.') && !insideStringLit(s, i) {
 			return i
 		}
 		from = i + 1
@@ -255,6 +256,18 @@ func parseContractFile(path, relpkg string) ([]*Contract, error) {
 				cur.Inline = true
 			case "watch":
 				cur.Watch = append(cur.Watch, strings.Fields(rest)...)
+			case "invariant":
+				// data-structure invariant over unexported state: requires + ensures of this function; callers in
+				// other packages cannot break it (the fields are unexported) and assume it instead of proving it
+				name, text := splitName(rest)
+				if name == "" {
+					name = "inv"
+				}
+				rq := &Clause{Name: name, Text: text, Line: ln, Inv: true}
+				en := &Clause{Name: name, Text: text, Line: ln}
+				cur.Requires = append(cur.Requires, rq)
+				cur.Ensures = append(cur.Ensures, en)
+				last = nil
 			case "requires", "ensures", "lemma":
 				name, text := splitName(rest)
 				cl := &Clause{Name: name, Text: text, Line: ln}
@@ -565,6 +578,7 @@ func (P *Program) ghostScope(parent *types.Scope, pkg *types.Package, pos token.
 	mk("offsetOf", intT, anyT)
 	mk("sameArray", boolT, anyT, anyT)
 	mk("disjoint", boolT, anyT, anyT)
+	mk("always", boolT, types.Typ[types.String], types.Typ[types.String])
 	mk("hasKey", boolT, anyT, anyT)
 	predU16 := types.NewSignatureType(nil, nil, nil, types.NewTuple(types.NewVar(0, nil, "k", types.Typ[types.Uint16])), types.NewTuple(types.NewVar(0, nil, "", boolT)), false)
 	predU32 := types.NewSignatureType(nil, nil, nil, types.NewTuple(types.NewVar(0, nil, "k", types.Typ[types.Uint32])), types.NewTuple(types.NewVar(0, nil, "", boolT)), false)
@@ -651,7 +665,7 @@ func (P *Program) prepare(cl *Clause, fn *ssa.Function, pos token.Pos) error {
 		case *ast.CallExpr:
 			if id, ok := x.Fun.(*ast.Ident); ok {
 				switch id.Name {
-				case "called", "ncalls", "calledBefore", "retBool", "retErr", "retBytes", "retInt", "retU64", "retAny", "argBool", "argErr", "argBytes", "argInt", "argU64", "argAny":
+				case "always", "called", "ncalls", "calledBefore", "retBool", "retErr", "retBytes", "retInt", "retU64", "retAny", "argBool", "argErr", "argBytes", "argInt", "argU64", "argAny":
 					cl.usesGhost = true
 				}
 			}
@@ -1547,6 +1561,17 @@ func (e *specEnv) call(n *ast.CallExpr) Term {
 			return slOff(e.eval(n.Args[0]))
 		case "sameArray":
 			return mkEq(slObj(e.eval(n.Args[0])), slObj(e.eval(n.Args[1])))
+		case "always":
+			// always("watch", "E"): E (a clause over the event ghosts of that watch) held right after every event of the watch so far
+			w, ok1 := stringLit(n.Args[0])
+			ex, ok2 := stringLit(n.Args[1])
+			if !ok1 || !ok2 {
+				unsup("spec: always(\"watch\", \"expr\") needs two string literals")
+			}
+			if e.f.vc.alwaysReg(w, ex) == nil {
+				unsup("spec: always(%q, ...) is not registered (the watch name must appear in the function's watch list)", w)
+			}
+			return e.st().get(alwaysName(w, ex), SBool)
 		case "disjoint":
 			// the element address ranges [obj+off*slots, obj+(off+cap)*slots) of two slices do not overlap
 			a, b := e.eval(n.Args[0]), e.eval(n.Args[1])
@@ -1806,4 +1831,35 @@ func (e *specEnv) watchName(x ast.Expr) string {
 		unsup("spec: %q is used in a clause but not declared with 'watch'", w)
 	}
 	return w
+}
+
+
+func stringLit(e ast.Expr) (string, bool) {
+	if l, ok := unparen(e).(*ast.BasicLit); ok && l.Kind == token.STRING {
+		v, err := strconv.Unquote(l.Value)
+		return v, err == nil
+	}
+	return "", false
+}
+
+func alwaysName(w, ex string) string {
+	return "G$always$" + w + "$" + strings.Join(strings.Fields(ex), "")
+}
+
+
+// insideStringLit: is position i of s inside a "..." literal? (macros are not expanded there: the text of an
+// always("w", "E") accumulator is expanded when E itself is prepared)
+func insideStringLit(s string, i int) bool {
+	in := false
+	for k := 0; k < i && k < len(s); k++ {
+		switch s[k] {
+		case '\\':
+			if in {
+				k++
+			}
+		case '"':
+			in = !in
+		}
+	}
+	return in
 }
